@@ -10,19 +10,22 @@ ExpOf(m) == LET p == Project(m) IN
     [name |-> p.name, nrexcl |-> p.nrexcl, atoms |-> p.atoms,
      inter |-> [i \in DOMAIN p.inter |-> [sec |-> p.inter[i].sec, alts |-> SetToSeq(Alts(p.inter[i].sec, p.inter[i].atoms)),
                                            par |-> p.inter[i].par, gk |-> p.inter[i].gk, gtag |-> p.inter[i].gtag]]]
-CaseOf(m) == LET r == Read(Write(m)) IN
-    [mol |-> [name |-> m.name, nrexcl |-> m.nrexcl, atoms |-> m.atoms, inter |-> m.inter, edges |-> IntEdges(m.edges),
-              rnodes |-> SetToSeq(m.rnodes), redges |-> IntEdges(m.redges)],
-     exp |-> ExpOf(m), missing |-> IntEdges(Missing(m)), rg |-> GraphJson(Requested(m)),
-     pred |-> [ok |-> r.ok, name |-> r.name, nrexcl |-> r.nrexcl, atoms |-> r.atoms,
-               inter |-> [i \in DOMAIN r.inter |-> [sec |-> r.inter[i].sec, alts |-> SetToSeq(Alts(r.inter[i].sec, r.inter[i].atoms)),
-                                                     par |-> r.inter[i].par, gk |-> r.inter[i].gk, gtag |-> r.inter[i].gtag]]],
-     rgpred |-> GraphJson(ReadResGraph(r)),
-     law |-> RoundTrip(m), rglaw |-> ResGraphLaw(m),
+PredOf(m) == LET r == Read(Write(m)) IN
+    [ok |-> r.ok, name |-> r.name, nrexcl |-> r.nrexcl, atoms |-> r.atoms,
+     inter |-> [i \in DOMAIN r.inter |-> [sec |-> r.inter[i].sec, alts |-> SetToSeq(Alts(r.inter[i].sec, r.inter[i].atoms)),
+                                           par |-> r.inter[i].par, gk |-> r.inter[i].gk, gtag |-> r.inter[i].gtag]],
+     rg |-> GraphJson(ReadResGraph(r)),
      \* which clause of the law fails for this molecule in the specification itself (names of the known findings)
      finding |-> IF r.atoms # Project(m).atoms THEN "mass-without-charge"
                  ELSE IF ~BagEqMod(r.inter, Project(m).inter) THEN "angle-restraints-z-reversed"
                  ELSE IF ~ResGraphLaw(m) THEN "residue-edge-without-bond" ELSE ""]
+\* pred (what the specification's own Write/Read give) is exported only where a law fails: it classifies known findings exactly
+CaseOf(m) == LET holds == RoundTrip(m) /\ ResGraphLaw(m) IN
+    [mol |-> [name |-> m.name, nrexcl |-> m.nrexcl, atoms |-> m.atoms, inter |-> m.inter, edges |-> IntEdges(m.edges),
+              rnodes |-> SetToSeq(m.rnodes), redges |-> IntEdges(m.redges)],
+     exp |-> ExpOf(m), missing |-> IntEdges(Missing(m)), rg |-> GraphJson(Requested(m)),
+     law |-> RoundTrip(m), rglaw |-> ResGraphLaw(m),
+     pred |-> IF holds THEN [ok |-> TRUE, finding |-> ""] ELSE PredOf(m)]
 ExportInv == pc = "start" => PrintT(<<"CASE", ToJson(CaseOf(mol))>>)
 CountInv == pc = "start" => TRUE
 =============================================================================
